@@ -40,18 +40,17 @@ Proof. unfold nonnull. apply filter_app. Qed.
 Theorem nansum_one_pass arr : nb_reduce o (op_sum o) arr true (Some (zero o)) = sum_list o (nonnull o arr).
 Proof. unfold nb_reduce. apply fold_skip_sum. Qed.
 
-(* sum of the per-chunk sums *)
-Lemma sum_of_chunk_sums (chunks : list (list V)) : forall acc, is_null o acc = false ->
-  fold_skip o (op_sum o) true (map (fun a => nb_reduce o (op_sum o) a true (Some (zero o))) chunks) acc
+(* sum of the per-chunk sums: the second stage adds the partial sums without looking for nulls *)
+Lemma fold_noskip_sum l : forall acc, fold_skip o (op_sum o) false l acc = fold_left (add o) l acc.
+Proof. unfold fold_skip, op_sum. induction l as [|x l IH]; intros acc; simpl; auto. Qed.
+
+Lemma sum_of_chunk_sums (chunks : list (list V)) : forall acc,
+  fold_left (add o) (map (fun a => nb_reduce o (op_sum o) a true (Some (zero o))) chunks) acc
   = add o acc (sum_list o (nonnull o (concat chunks))).
 Proof.
-  induction chunks as [|c chunks IH]; intros acc Ha.
+  induction chunks as [|c chunks IH]; intros acc.
   - simpl. unfold sum_list, nonnull. simpl. now rewrite (add_zero_r o L).
-  - cbn [map concat]. unfold fold_skip in *. cbn [fold_left].
-    rewrite nansum_one_pass.
-    assert (Hc : is_null o (sum_list o (nonnull o c)) = false) by (apply sum_list_nonnull; intros x Hx; eapply nn_nonnull; eauto).
-    rewrite Hc. cbn [andb]. unfold op_sum at 2.
-    rewrite IH by (apply (proj1 SC); auto).
+  - cbn [map concat fold_left]. rewrite nansum_one_pass, IH.
     rewrite nonnull_app, sum_list_app. now rewrite (add_assoc o L).
 Qed.
 
@@ -60,7 +59,7 @@ Theorem nansum_any_threads arr n : (0 < n)%nat ->
 Proof.
   intros Hn. unfold nan_reduce, reduce_1d. destruct (n =? 1)%nat.
   - apply nansum_one_pass.
-  - unfold nb_reduce at 1. rewrite sum_of_chunk_sums by (apply SC).
+  - unfold nb_reduce at 1. rewrite fold_noskip_sum, sum_of_chunk_sums.
     rewrite array_split_concat by auto. apply (add_zero_l o L).
 Qed.
 
@@ -77,24 +76,16 @@ Definition sumsq (l : list V) : V := sum_list o (map (sq o) (nonnull o l)).
 Theorem nansumsq_one_pass arr : nb_reduce o (op_sum_square o) arr true (Some (zero o)) = sumsq arr.
 Proof. unfold nb_reduce. apply fold_skip_sumsq. Qed.
 
-Lemma sumsq_nonnull l : is_null o (sumsq l) = false.
-Proof.
-  unfold sumsq. apply sum_list_nonnull. intros x Hx. apply in_map_iff in Hx. destruct Hx as [y [<- Hy]].
-  apply (proj1 (proj2 SC)). eapply nn_nonnull; eauto.
-Qed.
-
 Lemma sumsq_app l1 l2 : sumsq (l1 ++ l2) = add o (sumsq l1) (sumsq l2).
 Proof. unfold sumsq. now rewrite nonnull_app, map_app, sum_list_app. Qed.
 
-Lemma sum_of_chunk_sumsq (chunks : list (list V)) : forall acc, is_null o acc = false ->
-  fold_skip o (op_sum o) true (map (fun a => nb_reduce o (op_sum_square o) a true (Some (zero o))) chunks) acc
+Lemma sum_of_chunk_sumsq (chunks : list (list V)) : forall acc,
+  fold_left (add o) (map (fun a => nb_reduce o (op_sum_square o) a true (Some (zero o))) chunks) acc
   = add o acc (sumsq (concat chunks)).
 Proof.
-  induction chunks as [|c chunks IH]; intros acc Ha.
+  induction chunks as [|c chunks IH]; intros acc.
   - simpl. unfold sumsq, sum_list, nonnull. simpl. now rewrite (add_zero_r o L).
-  - cbn [map concat]. unfold fold_skip in *. cbn [fold_left].
-    rewrite nansumsq_one_pass. rewrite sumsq_nonnull. cbn [andb]. unfold op_sum at 2.
-    rewrite IH by (apply (proj1 SC); auto; apply sumsq_nonnull).
+  - cbn [map concat fold_left]. rewrite nansumsq_one_pass, IH.
     rewrite sumsq_app. now rewrite (add_assoc o L).
 Qed.
 
@@ -103,7 +94,7 @@ Theorem nansumsq_any_threads arr n : (0 < n)%nat ->
 Proof.
   intros Hn. unfold nan_reduce, reduce_1d. destruct (n =? 1)%nat.
   - apply nansumsq_one_pass.
-  - unfold nb_reduce at 1. rewrite sum_of_chunk_sumsq by (apply SC).
+  - unfold nb_reduce at 1. rewrite fold_noskip_sum, sum_of_chunk_sumsq.
     rewrite array_split_concat by auto. apply (add_zero_l o L).
 Qed.
 End NP.
